@@ -24,11 +24,6 @@ I64_MAX = 2 ** 63 - 1
 BODY_URL = b"/astria.protocol.transaction.v1.TransactionBody"
 KINDS = ("tx", "sb", "fb", "md", "rd", "mdl", "rdl")
 
-KNOWN_F11 = ("F11 SequencerBlock::try_from_raw accepts a block whose RollupTransactions.proof does not verify against "
-             "header.rollup_transactions_root (the per-rollup inclusion proofs are parsed but never audited in the "
-             "full-block decoder; FilteredSequencerBlock::try_from_raw does audit them)")
-
-
 # ----------------------------------------------------------------------------------- dumps
 
 def p_proof(s):
@@ -437,8 +432,6 @@ class C17(CaseCheck):
     open_statements = (
         "never-panic and consistency of the real prost / brotli / serde_json / ed25519 byte-level decoders (sampled by the "
         "correspondence stream, not proved)",
-        "per-rollup inclusion proofs of a full SequencerBlock verify against the header (refuted for the code: "
-        "C17_seq_block_rollup_proofs_refuted; holds for FilteredSequencerBlock)",
     )
 
     # -- generation -----------------------------------------------------------------------------
@@ -636,17 +629,6 @@ class C17(CaseCheck):
                 if kind == "sb" and kv.get("rproofs") == "false":
                     fails.append("rproofs: accepted sb carries a rollup inclusion proof that does not verify against the header, input #%d: %s" % (j, src))
         return fails
-
-    def classify(self, what, case, il):
-        if what.startswith("rproofs: accepted sb carries a rollup inclusion proof"):
-            # exactly this class: block level checks pass, value re-encodes, only the per-rollup proof is not audited
-            ok = True
-            for l in il:
-                if l.startswith("w sb ok") and "rproofs=false" in l and not ("reenc=true" in l and "checks=true" in l):
-                    ok = False
-            if ok:
-                return KNOWN_F11
-        return None
 
     _main_labels = None
 
